@@ -26,8 +26,10 @@ RULE = ("focus component over 3 leaves: all declaration sequences x optional lis
         "leaf produced no value and the focus declares it (so firing / reporting is actually decided by the rule under test)")
 ASSUMPTIONS = ["reference evaluator harness/graphs.py:ref_eval encodes the documented dr semantics",
                "None return value counts as a produced value (weaker reading of the statement)"]
-BOUNDS = {"quick": {"leaves": 3, "max_items": 2, "leaf_outcomes": ["value", "skip", "none", "disabled"]},
-          "thorough": {"leaves": 3, "max_items": 3, "leaf_outcomes": ["value", "skip", "none", "disabled", "content", "error"]}}
+# "zero": the leaf produces the falsy value 0 - a value all the same (added after a seeded change that bound falsy
+# values as None showed every generated value was truthy)
+BOUNDS = {"quick": {"leaves": 3, "max_items": 2, "leaf_outcomes": ["value", "skip", "none", "zero", "disabled"]},
+          "thorough": {"leaves": 3, "max_items": 3, "leaf_outcomes": ["value", "skip", "none", "zero", "disabled", "content", "error"]}}
 CAP_S = {"quick": 150, "thorough": 1500}
 
 SINGLES = [0, 1, 2]
